@@ -90,7 +90,8 @@ def annotate_cases(ctx, n_prog):
         cand = [i for i, l in enumerate(lines) if l.strip() and not l.strip().startswith("#") and '"""' not in l and "'''" not in l and not l.rstrip().endswith("\\")]
         if not cand:
             continue
-        picks = cand if ctx.thorough and len(cand) <= 12 else r.sample(cand, min(len(cand), 2))
+        fixed = sorted({cand[0], cand[len(cand) // 2], cand[-1]})  # the quick picks are a subset of the thorough ones (baseline covers both)
+        picks = cand if ctx.thorough and len(cand) <= 12 else fixed
         for i in picks:
             new = list(lines)
             new[i] = new[i] + IGNORE
